@@ -56,6 +56,7 @@ pub fn base_plan(profile: &str, seed: u64, g: Geometry) -> Plan {
         fs_yield_pm: 0,
         // a third of all runs perturb the task schedule at channel operations
         sched_yield_pm: *r.pick(&[0u32, 0, 0, 0, 30, 150, 400]),
+        chan_cap: None,
         disk_fail_writes: vec![],
         disk_fail_reads: vec![],
         disk_full_from: None,
@@ -2297,7 +2298,17 @@ pub fn generate(profile: &str, seed: u64) -> Option<Plan> {
         "bookkeeping" => bookkeeping(seed),
         "choking" => choking(seed),
         "tracker-faults" => tracker_faults(seed),
-        "keepalive" => keepalive(seed),
+        "keepalive" => {
+            // tuning knob (own generator: the rest of the plan is what it was without the knob):
+            // in a third of the runs the manager's command queues are short, so that senders meet
+            // a full queue as they would under load
+            let mut p = keepalive(seed);
+            let mut k = Rng64::sub(seed, "keepalive-chan-cap");
+            if k.chance(1, 3) {
+                p.chan_cap = Some(*k.pick(&[1usize, 2, 4]));
+            }
+            p
+        }
         "phantom-piece" => phantom_piece(seed),
         _ => return None,
     })
